@@ -191,7 +191,7 @@ func (g *Graph) Reach(from Point, cut Cut, target func(p Point, n ast.Node) bool
 			continue
 		}
 		// end-of-block pseudo target (function exit by falling off the end)
-		if len(it.b.Succs) == 0 && target != nil {
+		if g.fallsOff(it.b) && target != nil {
 			p := Point{it.b, len(it.b.Nodes)}
 			if target(p, nil) {
 				return &p, pathOf(it)
@@ -515,7 +515,7 @@ func (g *Graph) ReachAll(from Point, cut Cut, pred func(p Point, n ast.Node) boo
 		if stopped {
 			continue
 		}
-		if len(it.b.Succs) == 0 {
+		if g.fallsOff(it.b) {
 			p := Point{it.b, len(it.b.Nodes)}
 			if pred(p, nil) {
 				out = append(out, p)
@@ -578,4 +578,27 @@ func (g *Graph) EntersBlock(from Point, cut Cut, blk *cfg.Block) bool {
 	}
 	g.ReachAll(from, inner, func(Point, ast.Node) bool { return false })
 	return hit
+}
+
+// fallsOff reports whether control leaves the function at the end of block b
+// without a return statement or a call that does not return.
+func (g *Graph) fallsOff(b *cfg.Block) bool {
+	if len(b.Succs) != 0 {
+		return false
+	}
+	if b.Kind == cfg.KindSelectAfterCase {
+		return false // a select without default that matches no case blocks; it does not leave the function
+	}
+	if len(b.Nodes) == 0 {
+		return true
+	}
+	switch n := b.Nodes[len(b.Nodes)-1].(type) {
+	case *ast.ReturnStmt:
+		return false
+	case *ast.ExprStmt:
+		if call, ok := n.X.(*ast.CallExpr); ok && !g.F.mayReturn(call) {
+			return false
+		}
+	}
+	return true
 }
